@@ -183,7 +183,7 @@ async def run_socket_scenario(steps, init_session=None, timeout=5.0):
             cur = state["current"]
             (obs[cur]["delivered"] if cur is not None else state["stray"]).append(dump_message(m))
 
-    async def send(writer, data, split):
+    async def send(writer, data, split, pace=0.0):
         if not split:
             writer.write(data)
             await writer.drain()
@@ -191,7 +191,7 @@ async def run_socket_scenario(steps, init_session=None, timeout=5.0):
         for i in range(0, len(data), split):
             writer.write(data[i:i + split])
             await writer.drain()
-            await asyncio.sleep(0)
+            await asyncio.sleep(pace)          # pace > 0: an answer that takes its time (every pause well below the timeout)
 
     async def handle(reader, writer):
         try:
@@ -251,16 +251,19 @@ async def run_socket_scenario(steps, init_session=None, timeout=5.0):
             data = ans["body"]
             te = ans.get("te", "length")
             split = ans.get("split", 0)
+            pace = ans.get("pace", 0.0)
+            if pace:
+                split = max(1, (len(data) + 200) // 8)        # about eight writes
             if te == "length":
                 out.append(f"content-length: {len(data)}".encode())
-                await send(writer, b"\r\n".join(out) + b"\r\n\r\n" + data, split)
+                await send(writer, b"\r\n".join(out) + b"\r\n\r\n" + data, split, pace)
             elif te == "chunked":
                 out.append(b"transfer-encoding: chunked")
                 n = split or max(1, len(data))
                 chunks = b"".join(f"{len(data[i:i + n]):x}\r\n".encode() + data[i:i + n] + b"\r\n" for i in range(0, len(data), n))
-                await send(writer, b"\r\n".join(out) + b"\r\n\r\n" + chunks + b"0\r\n\r\n", split)
+                await send(writer, b"\r\n".join(out) + b"\r\n\r\n" + chunks + b"0\r\n\r\n", split, pace)
             else:                                         # close-delimited
-                await send(writer, b"\r\n".join(out) + b"\r\n\r\n" + data, split)
+                await send(writer, b"\r\n".join(out) + b"\r\n\r\n" + data, split, pace)
         except (asyncio.IncompleteReadError, ConnectionError):
             pass
         finally:
